@@ -1,6 +1,7 @@
 package main
 
 import (
+	"context"
 	"fmt"
 	"io"
 	"reflect"
@@ -43,6 +44,67 @@ type trSys struct {
 	kills      int
 	nbusy      int           // long calls started and not yet released
 	idle       time.Duration // the Transport's IdleConnTimeout
+	// per-connection use, seen from outside (C15): when a user request last went out on it, and how
+	// many requests sent on it are unanswered / streams open
+	lastUse   map[int]time.Duration
+	busyOn    map[int]int
+	abandoned []*ucall // calls given up by their callers whose handlers have not answered yet
+	abConn    map[byte]int
+}
+
+// sent snapshots the number of client-to-server frames per connection.
+func (t *trSys) sent() map[int]int {
+	m := map[int]int{}
+	for _, c := range t.n.conns {
+		k := 0
+		for _, f := range c.end.p.wire {
+			if f.Dir == 0 {
+				k++
+			}
+		}
+		m[c.id] = k
+	}
+	return m
+}
+
+// used marks the connections that carried a frame since the snapshot; it returns the id of one of them (-1: none).
+func (t *trSys) used(before map[int]int) int {
+	id := -1
+	for _, c := range t.n.conns {
+		k := 0
+		for _, f := range c.end.p.wire {
+			if f.Dir == 0 {
+				k++
+			}
+		}
+		if k > before[c.id] {
+			t.lastUse[c.id] = vt.Elapsed()
+			id = c.id
+		}
+	}
+	return id
+}
+
+// checkUnused (C15, second clause): a connection on which no user request has gone out for a bounded time,
+// and which has nothing outstanding, is closed.  The bound is KeepAlive + MaxConnsPerHost x IdleConnTimeout +
+// three housekeeping periods, which is what the pool's policy supports: the idle sweep looks at the newest
+// entry of a host's idle queue only (an older entry behind it is closed when the newest one expires), and
+// calls take connections from the old end of the queue, so while calls go on every pooled connection is
+// used in turn and none stays unused for longer than a rotation; when the calls stop, the newest entry
+// expires.  What the property excludes is a connection that is neither used nor closed for good.
+func (t *trSys) checkUnused() {
+	if t.prop != "C15" || t.keep || trKeepAlive > time.Hour || trIdle > time.Hour || t.idle > time.Hour { // (the "forever" durations of c15/forever-durations)
+		return
+	}
+	limit := trKeepAlive + time.Duration(t.effConns)*t.idle + 3*tTick
+	for _, c := range t.n.conns {
+		if c.end.p.closed[0] || c.end.p.closed[1] || c.end.p.dead || c.end.p.reset || t.busyOn[c.id] > 0 {
+			continue
+		}
+		if lu, ok := t.lastUse[c.id]; ok && vt.Elapsed()-lu > limit {
+			t.x.Fail("C15/unused-connection-kept", "connection %d to %q has carried no request for %v and is still open (KeepAlive %v, IdleConnTimeout %v, housekeeping period %v); events: %v", c.id, c.addr, vt.Elapsed()-lu, trKeepAlive, t.idle, tTick, t.log)
+		}
+	}
 }
 
 func (t *trSys) settle() {
@@ -54,21 +116,24 @@ func (t *trSys) settle() {
 }
 
 type trLong struct {
-	c       *ucall
-	addr    string
-	kills   int // number of kills when it was started
-	budget0 int // dead pooled connections not yet used up when it was started
-	judged  bool
+	c        *ucall
+	addr     string
+	kills    int // number of kills when it was started
+	budget0  int // dead pooled connections not yet used up when it was started
+	judged   bool
+	conn     int // the connection that carried its request (-1: unknown)
+	released bool
 }
 
 type trStream struct {
 	st   rpc.Stream
 	addr string
 	n    int
+	conn int
 }
 
 func newTrSys(x *X, prop string, maxConns, maxIdle int) *trSys {
-	t := &trSys{x: x, prop: prop, n: newNet(), w: map[string]*World{}, srv: map[string]*rpc.Server{}, up: map[string]bool{}, deadBudget: map[string]int{}, maxConns: maxConns, maxIdle: maxIdle, nextTag: 1}
+	t := &trSys{x: x, prop: prop, n: newNet(), w: map[string]*World{}, srv: map[string]*rpc.Server{}, up: map[string]bool{}, deadBudget: map[string]int{}, maxConns: maxConns, maxIdle: maxIdle, nextTag: 1, lastUse: map[int]time.Duration{}, busyOn: map[int]int{}, abConn: map[byte]int{}}
 	t.effConns, t.effIdle = maxConns, maxIdle
 	t.idle = trIdle
 	if t.effConns < 1 {
@@ -139,6 +204,8 @@ func (t *trSys) call(addr string, form int) error {
 	tag := t.tag()
 	c := newUcall(tag, 0, 10+int(tag)%50, form)
 	t0 := vt.Elapsed()
+	before := t.sent()
+	defer func() { t.used(before) }()
 	var err error
 	switch form {
 	case formPing:
@@ -243,6 +310,8 @@ func (t *trSys) advance(d time.Duration, what string) {
 		vt.Advance(step)
 		t.settle()
 		t.checkLimits("after a tick")
+		t.checkAbandoned("by a housekeeping tick")
+		t.checkUnused()
 		d -= step
 	}
 	t.log = append(t.log, what)
@@ -253,19 +322,31 @@ func (t *trSys) longCall(addr string) {
 	l := &trLong{c: c, addr: addr, kills: t.kills, budget0: t.deadBudget[addr]}
 	t.long = append(t.long, l)
 	t.nbusy++
+	before := t.sent()
 	vs.GoNamed("longcall", func() {
 		c.err = t.tr.Call(addr, c.method, &c.args, &c.reply)
 		c.ret = true
 	})
 	t.settle()
+	if id := t.used(before); id >= 0 {
+		t.busyOn[id]++
+		l.conn = id
+	} else {
+		l.conn = -1
+	}
 	t.log = append(t.log, "long("+addr+")")
 }
 
 func (t *trSys) openStream(addr string) {
+	before := t.sent()
 	st, err := t.tr.NewStream(addr, "StreamSvc.Push")
+	id := t.used(before)
 	t.log = append(t.log, "stream("+addr+")="+errStr(err))
 	if err == nil {
-		t.streams = append(t.streams, &trStream{st: st, addr: addr})
+		t.streams = append(t.streams, &trStream{st: st, addr: addr, conn: id})
+		if id >= 0 {
+			t.busyOn[id]++
+		}
 	}
 }
 
@@ -290,7 +371,21 @@ func (t *trSys) release() {
 	t.nbusy = 0
 	for _, l := range t.long {
 		t.w[l.addr].open(l.c.tag)
+		if l.conn >= 0 && !l.released {
+			t.busyOn[l.conn]--
+			t.lastUse[l.conn] = vt.Elapsed()
+		}
+		l.released = true
 	}
+	for _, c := range t.abandoned {
+		t.w["a"].open(c.tag)
+		if id, ok := t.abConn[c.tag]; ok {
+			t.busyOn[id]--
+			t.lastUse[id] = vt.Elapsed()
+			delete(t.abConn, c.tag)
+		}
+	}
+	t.abandoned = nil
 	vs.Quiesce()
 	for _, l := range t.long {
 		if o := map[string]string{"a": "b", "b": "a"}[l.addr]; l.c.ret && !l.judged && t.w[o].execs[l.c.tag] > 0 {
@@ -371,10 +466,12 @@ const (
 	evManyLongA
 	evManyLongB
 	evReleaseKeep
+	evAbandonA
+	evCall2A
 	nTrEvents
 )
 
-var trEvNames = []string{"call(a)", "call(b)", "ping(a)", "go(a)", "long(a)", "stream(a)", "release", "tick", ">keepalive", ">idle", "closeidle", "kill(a)", "restart(a)", "closestream", "refused-stream(a)", "many-long(a)", "many-long(b)", "release-keep"}
+var trEvNames = []string{"call(a)", "call(b)", "ping(a)", "go(a)", "long(a)", "stream(a)", "release", "tick", ">keepalive", ">idle", "closeidle", "kill(a)", "restart(a)", "closestream", "refused-stream(a)", "many-long(a)", "many-long(b)", "release-keep", "abandon(a)", "call-call(a)"}
 
 func (t *trSys) do(ev int) {
 	switch ev {
@@ -427,6 +524,37 @@ func (t *trSys) do(ev int) {
 				t.longCall("b")
 			}
 		}
+	case evAbandonA:
+		// a CallWithContext whose request has reached a held handler is given up by its caller: the request stays
+		// sent and unanswered (the connection is busy, C15) until the handlers are released
+		if t.up["a"] && len(t.abandoned) < 2 {
+			c := newUcall(t.tag(), fGate, 24, formCallCtx)
+			c.hctx = newCtx(nil)
+			before := t.sent()
+			vs.GoNamed("abandoning-caller", func() {
+				c.err = t.tr.CallWithContext(c.hctx, "a", c.method, &c.args, &c.reply)
+				c.ret = true
+			})
+			t.settle()
+			id := t.used(before)
+			c.hctx.cancel(context.Canceled)
+			t.settle()
+			if !c.ret || c.err != context.Canceled {
+				t.x.Fail(t.prop+"/abandon-failed", "Transport.CallWithContext with a cancelled context: returned=%v err=%v; events: %v", c.ret, c.err, t.log)
+			}
+			if id >= 0 && t.w["a"].execs[c.tag] == 1 {
+				t.abandoned = append(t.abandoned, c)
+				t.abConn[c.tag] = id
+				t.busyOn[id]++
+				t.nbusy++
+			}
+			t.log = append(t.log, fmt.Sprintf("abandon(a)@conn%d", id))
+		}
+	case evCall2A:
+		// a sequential caller: two calls one right after the other (nothing else gets to run in between
+		// unless the explorer says so)
+		t.call("a", formCall)
+		t.call("a", formCall)
 	case evReleaseKeep:
 		// the held handlers answer; threads the explorer has stalled stay stalled (a caller whose reply has
 		// arrived and who has not yet returned into the Transport)
@@ -447,12 +575,33 @@ func (t *trSys) do(ev int) {
 	case evCloseStream:
 		if n := len(t.streams); n > 0 {
 			err := t.streams[n-1].st.Close()
+			if id := t.streams[n-1].conn; id >= 0 {
+				t.busyOn[id]--
+				t.lastUse[id] = vt.Elapsed()
+			}
 			t.streams = t.streams[:n-1]
 			t.log = append(t.log, "closestream="+errStr(err))
 		}
 	}
 	t.settle()
 	t.checkLimits("after " + trEvNames[ev])
+	t.checkAbandoned("after " + trEvNames[ev])
+}
+
+// checkAbandoned (C15, first clause): a connection on which a request has been sent and not yet answered is
+// not closed by the Transport, whether or not somebody still waits for the answer.
+func (t *trSys) checkAbandoned(when string) {
+	for _, c := range t.abandoned {
+		id, ok := t.abConn[c.tag]
+		if !ok || !t.up["a"] || t.kills > 0 {
+			continue
+		}
+		for _, fc := range t.n.conns {
+			if fc.id == id && fc.end.p.closed[0] {
+				t.x.Fail("C15/busy-connection-closed/abandoned-call", "connection %d was closed by the Transport %s although request %d sent on it has not been answered (its caller gave up; the handler is still running); events: %v", id, when, c.tag, t.log)
+			}
+		}
+	}
 }
 
 func (t *trSys) shutdown() {
@@ -488,6 +637,16 @@ func trSeqBodyIdle(prop string, idles []time.Duration, L int, alphabet []int, li
 	return func(x *X) {
 		trIdle = idles[x.Choose(len(idles))]
 		defer func() { trIdle = tIdle }()
+		body(x)
+	}
+}
+
+// trSeqBodyKA: the Transport's KeepAlive is set to ka for the scenario
+func trSeqBodyKA(prop string, ka time.Duration, L int, alphabet []int, limits [][2]int, prefix ...int) func(x *X) {
+	body := trSeqBodyK(prop, false, L, alphabet, limits, prefix...)
+	return func(x *X) {
+		trKeepAlive = ka
+		defer func() { trKeepAlive = tKeepAlive }()
 		body(x)
 	}
 }
@@ -609,6 +768,15 @@ func init() {
 	// and failed another call
 	lateOK := []int{evKillA, evCallA, evRelease, evRestartA}
 	register(&Scenario{Prop: "C14", Name: "c14/late-success-L4", Quick: []Bound{{1, 0}}, Thorough: []Bound{{2, 0}}, Body: trSeqBodyK("C14", true, 4, lateOK, trLimits[:2], evLongA, evReleaseKeep), MaxSteps: 200000, BudgetQ: 30, BudgetT: 300, SoloStalls: true})
+	// both pooled connections have died and been retired to the idle queue, the server is back: calls, kills,
+	// restarts and ticks afterwards (a re-dial that fails on the way is one of the paths)
+	deadIdle := []int{evCallA, evKillA, evRestartA, evTick}
+	register(&Scenario{Prop: "C14", Name: "c14/dead-idle-connections-L4", Quick: []Bound{{0, 0}}, Thorough: []Bound{{1, 0}}, Body: trSeqBody("C14", 4, deadIdle, [][2]int{{2, 1}, {2, 2}, {3, 2}, {3, 3}}, evManyLongA, evRelease, evKillA, evPastKeepAlive, evRestartA), MaxSteps: 400000, BudgetQ: 25, BudgetT: 300})
+	// ... and the same after each of them has failed a call (flagged dead) before it was retired
+	register(&Scenario{Prop: "C14", Name: "c14/flagged-dead-idle-connections-L4", Quick: []Bound{{0, 0}}, Thorough: []Bound{{1, 0}}, Body: trSeqBody("C14", 4, deadIdle, [][2]int{{2, 1}, {2, 2}, {3, 2}, {3, 3}}, evManyLongA, evRelease, evKillA, evRestartA, evCallA, evCallA, evCallA, evPastKeepAlive), MaxSteps: 400000, BudgetQ: 25, BudgetT: 300})
+	// a sequential caller that issues its next call at once
+	b2b := []int{evCall2A, evTick, evKillA, evRestartA}
+	register(&Scenario{Prop: "C14", Name: "c14/back-to-back-calls-L4", Quick: []Bound{{0, 0}}, Thorough: []Bound{{1, 0}}, Body: trSeqBody("C14", 4, b2b, trLimits[:3], evCallA), MaxSteps: 400000, BudgetQ: 25, BudgetT: 300})
 	register(&Scenario{Prop: "C14", Name: "c14/concurrent", Quick: []Bound{{1, 0}}, Thorough: []Bound{{2, 0}}, Body: trConcBody("C14", trLimits[:3]), MaxSteps: 200000})
 	c20ab := []int{evCallA, evCallB, evGoA, evLongA, evStreamA, evTick, evPastKeepAlive, evCloseIdle, evKillA, evRestartA}
 	register(&Scenario{Prop: "C20", Name: "c20/transport-histories-L3", Quick: []Bound{{0, 0}}, Thorough: []Bound{{1, 0}}, Body: trSeqBody("C20", 3, c20ab, [][2]int{{2, 2}, {2, 1}, {3, 2}, {1, 1}}), MaxSteps: 200000, OnlyKeys: []string{"C20/", "panic/", "livelock/"}})
@@ -643,6 +811,15 @@ func init() {
 	register(&Scenario{Prop: "C20", Name: "c20/transport-after-server-restart-L3", Quick: []Bound{{0, 0}}, Thorough: []Bound{{1, 0}}, Body: trSeqBody("C20", 3, c20r, [][2]int{{1, 1}, {2, 2}, {3, 2}}, evCallA, evKillA, evRestartA), MaxSteps: 200000, OnlyKeys: []string{"C20/", "C15/close-leaves-connections", "panic/", "livelock/"}})
 	c15r := []int{evCallA, evRefusedStreamA, evTick, evPastKeepAlive, evPastIdle, evCloseIdle}
 	register(&Scenario{Prop: "C15", Name: "c15/after-refused-stream-L3", Quick: []Bound{{0, 0}}, Thorough: []Bound{{1, 0}}, Body: trSeqBody("C15", 3, c15r, trLimits[:2], evRefusedStreamA), MaxSteps: 200000})
+	// a request whose caller has given up (CallWithContext) is still sent-and-unanswered: housekeeping leaves its connection alone
+	c15ab2 := []int{evCallA, evTick, evPastKeepAlive, evPastIdle, evCloseIdle, evAbandonA}
+	register(&Scenario{Prop: "C15", Name: "c15/abandoned-call-L3", Quick: []Bound{{0, 0}}, Thorough: []Bound{{1, 0}}, Body: trSeqBody("C15", 3, c15ab2, trLimits[:3], evAbandonA), MaxSteps: 400000, BudgetQ: 20})
+	// one connection of several stays in use (a call every KeepAlive + 1 s), the others are not used any more: they are closed
+	// ... with a KeepAlive shorter than the housekeeping period (a connection is retired by the first tick after its use)
+	hot2 := []int{evCallA, evPastKeepAlive, evTick}
+	register(&Scenario{Prop: "C15", Name: "c15/one-hot-connection-short-keepalive-L8", Quick: []Bound{{0, 0}}, Thorough: []Bound{{1, 0}}, Body: trSeqBodyKA("C15", 300*time.Millisecond, 8, hot2, [][2]int{{3, 3}, {4, 3}, {2, 2}}, evManyLongA, evRelease, evTick), MaxSteps: 1000000, BudgetQ: 25, BudgetT: 200})
+	hot := []int{evCallA, evPastKeepAlive, evTick}
+	register(&Scenario{Prop: "C15", Name: "c15/one-hot-connection-L6", Quick: []Bound{{0, 0}}, Thorough: []Bound{{1, 0}}, Body: trSeqBody("C15", 6, hot, [][2]int{{3, 3}, {4, 3}, {2, 2}}, evManyLongA, evRelease, evPastKeepAlive), MaxSteps: 1000000, BudgetQ: 25, BudgetT: 200})
 	register(&Scenario{Prop: "C15", Name: "c15/concurrent-first-callers", Quick: []Bound{{1, 0}}, Thorough: []Bound{{2, 0}}, Body: trConcBody("C15", trLimits[:3]), MaxSteps: 200000, BudgetQ: 25})
 	register(&Scenario{Prop: "C15", Name: "c15/seq-L4", Quick: []Bound{{0, 0}}, Thorough: []Bound{{1, 0}}, Body: trSeqBody("C15", 4, c15ab, trLimits[:3]), MaxSteps: 200000})
 }
